@@ -100,7 +100,7 @@ def narrow_stream(c, algs, count):
     from engine import impl_map
     kinds = {a: ALGS[a].kind for a in algs}
     cases = C.narrow_cases(c.rng, algs, count, {a: ("partition" if k == "partition" else "pack" if k == "pack" else "cover") for a, k in kinds.items()})
-    tasks = [(case, fmt, "SortedSums", list(case["vals"])) for case in cases for fmt in ("list", "narrow")]
+    tasks = [(case, fmt, "SortedSums", list(case["vals"])) for case in cases for fmt in ("list", "f16" if case.get("f16") else "narrow")]
     res = iter(impl_map(tasks))
     for case in cases:
         ref, got = next(res), next(res)
@@ -114,8 +114,9 @@ def narrow_stream(c, algs, count):
         c.evaluations += 2; c.corr_cases += 1
         c.stats["narrow-array"]["cases"] += 1
         c.stats["narrow-array"]["alg:" + case["alg"]] += 1
+        c.stats["narrow-array"]["float16" if case.get("f16") else "integer"] += 1
         kind = "format-dependence" if not J._is_err(got) else "exception:" + got["error"]
-        c.check_direct(case["alg"], dict(case["p"], vals=case["vals"], alg=case["alg"], fmt="narrow"), kind, ok, got,
+        c.check_direct(case["alg"], dict(case["p"], vals=case["vals"], alg=case["alg"], fmt="f16" if case.get("f16") else "narrow"), kind, ok, got,
                        f"same multiset of sums as for list input: {ref}")
 
 # ------------------------------------------------------------------------------------------------ C03
@@ -2584,7 +2585,7 @@ def replay(c, rp):
     case = rp.get("case") or {}
     if case.get("alg") in ALGS and "vals" in case and set(ALGS[case["alg"]].param) <= set("kB") and ALGS[case["alg"]].param in case.get("p", {}):
         fmt, ot = rp.get("fmt", "list"), rp.get("outtype", PT)
-        fmt = fmt if fmt in FORMATS + ["uarray", "narrow"] else "list"
+        fmt = fmt if fmt in FORMATS + ["uarray", "narrow", "f16"] else "list"
         ot = ot if ot in OUTTYPES else PT
         kind_ = ALGS[case["alg"]].kind
 
